@@ -62,7 +62,12 @@ type vf31Case struct {
 	Blocked []vf31Spelled `json:"blocked"`
 	Txs     []vf31Tx      `json:"txs"`   // 1 = single, 2..4 = pool-form group
 	Route   string        `json:"route"` // "event" or "block"
-	Height  int64         `json:"height"`
+	// Prime: before the delivery, and under the same blacklist installation, the SAME unsigned body (same transaction
+	// ids: the id does not cover the signature) signed by unblocked keys (PrimeKey for every blocked sender) is sent
+	// through this route ("" = no priming)
+	Prime    string `json:"prime,omitempty"`
+	PrimeKey int    `json:"prime_key,omitempty"`
+	Height   int64  `json:"height"`
 }
 
 const vf31Keys = 5
@@ -194,13 +199,34 @@ func vf31Item(c *vf31Case) (pool *types.Transaction, touch []bool) {
 		}
 		txs = g.Txs
 	}
+	vf31Body = txs
+	return vf31Signed(c, txs, false), touch
+}
+
+var vf31Body []*types.Transaction // unsigned body of the item built last
+
+// vf31Signed signs a copy of the body; with clean=true every blocked sender is replaced by an unblocked key.
+func vf31Signed(c *vf31Case, body []*types.Transaction, clean bool) *types.Transaction {
+	blocked := map[vf31Who]bool{}
+	for _, b := range c.Blocked {
+		blocked[b.vf31Who] = true
+	}
+	txs := make([]*types.Transaction, len(body))
 	for i, sh := range c.Txs {
-		vf31Sign(txs[i], sh.S)
+		signer := sh.S
+		for k := c.PrimeKey; clean && blocked[signer]; k++ {
+			signer = vf31Who{K: k % vf31Keys, Eth: sh.S.Eth}
+			if blocked[signer] {
+				signer.Eth = !signer.Eth
+			}
+		}
+		txs[i] = types.CloneTx(body[i])
+		vf31Sign(txs[i], signer)
 	}
 	if len(txs) == 1 {
-		return txs[0], touch
+		return txs[0]
 	}
-	return (&types.Transactions{Txs: txs}).Tx(), touch
+	return (&types.Transactions{Txs: txs}).Tx()
 }
 
 // vf31Deliver pushes the delayed transaction through the chosen route and reports whether the cache took it.
@@ -253,7 +279,17 @@ func vf31Run(t lib.TB, test string, c *vf31Case) {
 		bl = append(bl, b.String())
 	}
 	types.SetBlockedAccountsForTest(bl)
+	if c.Prime != "" {
+		// the clean-signed twin touches only if a position covered by the id does; then it primes nothing
+		pc := *c
+		pc.Route = c.Prime
+		vf31Deliver(&pc, vf31Signed(c, vf31Body, true))
+		lib.Class("primed_via_" + c.Prime)
+	}
 	cached, replyOK := vf31Deliver(c, pool)
+	if c.Prime == "event" && c.Route == "event" {
+		cached = false // the mempool's delay cache already holds this id from the clean-signed twin: only the reply tells
+	}
 	types.SetBlockedAccountsForTest(nil)
 	lib.Class("route_" + c.Route)
 	if !any {
@@ -295,6 +331,8 @@ func vf31GenWho(t *rapid.T, l string) vf31Who {
 
 func vf31GenCase(t *rapid.T) *vf31Case {
 	c := &vf31Case{Route: rapid.SampledFrom([]string{"event", "block"}).Draw(t, "route"), Height: rapid.Int64Range(1, 100).Draw(t, "height")}
+	c.Prime = rapid.SampledFrom([]string{"", "block", "event", "block"}).Draw(t, "prime")
+	c.PrimeKey = rapid.IntRange(0, vf31Keys-1).Draw(t, "primeKey")
 	nb := rapid.IntRange(1, 2).Draw(t, "nb")
 	for i := 0; i < nb; i++ {
 		w := vf31GenWho(t, "b")
